@@ -10,7 +10,7 @@ use crate::readers::{model_for, open, ChunkedSource, Front, ReaderSys, FRONTS};
 use flac_codec::decode::FlacSampleReader;
 use serde_json::{json, Value};
 
-pub const RULE: &str = "(1) per file and reader front-end: BFS to a fixpoint over ALL histories of {read(n), fill_buf, fill+consume(k)} on the real non-seekable reader (exact-state keys) over sources that return everything / 7 bytes / 1 byte per read; (2) per file: EVERY single cut point of the byte source and every pair of cut points on files ≤ 400 bytes (thorough ≤ 1000 bytes) × drain scripts {consume-all, 1 unit at a time, 7 units at a time} × 4 front-ends + sample iterator, each continued with 3 further calls of every kind after end-of-stream; oracle: concatenation == reference PCM exactly once (bytes in the front-end's byte order, per-channel slices de-interleaved), end-of-stream is sticky";
+pub const RULE: &str = "(1) per file and reader front-end: BFS to a fixpoint over ALL histories of {read(n), fill_buf, fill+consume(k)} on the real non-seekable reader (exact-state keys) over sources that return everything / 7 bytes / 1 byte per read; (2) per file: EVERY single cut point of the byte source and every pair of cut points on files ≤ 400 bytes (thorough ≤ 3000 bytes) × drain scripts {consume-all, 1 unit at a time, 7 units at a time} × 4 front-ends + sample iterator, each continued with 3 further calls of every kind after end-of-stream; oracle: concatenation == reference PCM exactly once (bytes in the front-end's byte order, per-channel slices de-interleaved), end-of-stream is sticky";
 pub const ASSUMPTIONS: &[&str] = &["read sizes outside {1, w, w·ch−1, 16 frames, 100000} are not explored", "segmentations with more than 2 cut points are represented only by the fixed-chunk sources (1 and 7 bytes)"];
 pub fn bounds(quick: bool) -> Value {
     if quick {
@@ -215,7 +215,7 @@ pub fn run(ctx: &Ctx, acc: &mut Acc) {
         // (2) segmentations × drain scripts
         let n = f.bytes.len();
         let mut cutsets: Vec<Vec<usize>> = (1..n).map(|c| vec![c]).collect();
-        if n <= (if ctx.quick { 400 } else { 1000 }) {
+        if n <= (if ctx.quick { 400 } else { 3000 }) {
             for a in 1..n {
                 for b in a + 1..n {
                     cutsets.push(vec![a, b]);
